@@ -646,7 +646,10 @@ func (s *sim) buildBlock(parent *mBlock, bs *BlockSpec) *mBlock {
 			}
 		}
 	case "ts-future":
-		ts = uint32(s.now().Unix()) + 3*3600
+		// far enough ahead that no sequence of clock advances inside a run makes it
+		// acceptable later (a block 3 h ahead IS valid once an hour has passed: the
+		// model's label is not time-relative - false alarm met at thorough seed 13)
+		ts = uint32(s.now().Unix()) + 90*24*3600
 		sane = false
 		selfOK, why = false, "timestamp-too-far-ahead"
 	case "bits":
